@@ -104,7 +104,7 @@ def gen_sim(rng, tier):
     # ggn_spectrally_separated costs 10-50 s per batch: thorough tier only
     method = rng.choice(['ggn_approx', 'ggn_approx', 'ggn_approx', 'ggn_spectrally_separated']) if tier == 'thorough' else 'ggn_approx'
     nreq = rng.choice([2, 2, 3] if tier == 'quick' else [2, 3, 3, 4]) if method == 'ggn_approx' else 2
-    case = batch_g.gen_batch(rng, tier, nreq=nreq, kinds=['fixed', 'fixed', 'hard', 'sparse'])
+    case = batch_g.gen_batch(rng, tier, nreq=nreq, kinds=['fixed', 'fixed', 'hard', 'sparse'], twins_ok=False)
     case['kind'] = 'batch'
     case['sim'] = {'method': method, 'ncomp': rng.choice([5, 8, 8]), 'raman': rng.random() < 0.4}
     n = case['n']
